@@ -446,6 +446,38 @@ pub fn decode_stream(r: &mut Rng, big: bool) -> (bool, Vec<u8>) {
                 b
             }
         }
+        3 if r.chance(1, 4) => {
+            // dialect: a verbose NETWORK-TRACE message whose raw slices carry names (VARI) and that
+            // also contains non-raw arguments
+            let be = r.flip();
+            let mut b = if storage {
+                vec![0x44, 0x4c, 0x54, 0x01, 1, 0, 0, 0, 2, 0, 0, 0, b'E', b'C', b'U', 0]
+            } else {
+                vec![]
+            };
+            let mut p: Vec<u8> = vec![];
+            let nargs = r.range(1, 3) as usize;
+            for _ in 0..nargs {
+                let named = r.flip();
+                let dl = r.below(6) as usize;
+                let data = r.bytes(dl);
+                let ti: u32 = 0x400 | if named { 0x800 } else { 0 };
+                p.extend_from_slice(&if be { ti.to_be_bytes() } else { ti.to_le_bytes() });
+                let l = data.len() as u16;
+                p.extend_from_slice(&if be { l.to_be_bytes() } else { l.to_le_bytes() });
+                if named {
+                    let nl = 3u16;
+                    p.extend_from_slice(&if be { nl.to_be_bytes() } else { nl.to_le_bytes() });
+                    p.extend_from_slice(b"ca\0");
+                }
+                p.extend_from_slice(&data);
+            }
+            let len = (4 + 10 + p.len()) as u16;
+            b.extend_from_slice(&[0x21 | if be { 2 } else { 0 }, 9, (len >> 8) as u8, len as u8]);
+            b.extend_from_slice(&[0x25, nargs as u8, b'A', b'P', b'P', 0, b'C', b'T', b'X', 0]);
+            b.extend_from_slice(&p);
+            b
+        }
         3 => {
             // junk in front (storage mode resync)
             let k = r.range(1, 12) as usize;
@@ -526,6 +558,29 @@ fn c03(r: &mut Rng, thorough: bool, w: W) -> std::io::Result<()> {
             s.extend(&b);
             writeln!(w, "NOPANIC 1 - {}", hex(&s))?;
             writeln!(w, "CONSUME {}", hex(&s))?;
+        }
+    }
+    // a string argument whose invalid bytes, if REPLACED instead of cut (x3 as U+FFFD, x2 as
+    // Latin-1 -> UTF-8), would make the text reach the 16-bit length limit on re-serialisation
+    for be in [false, true] {
+        for (factor, delta) in [(3usize, 0isize), (3, -1), (3, 1), (2, 0), (2, 1)] {
+            // k invalid bytes and m ASCII bytes with factor*k + m = 65535 + delta, k + m + 1 = field size
+            let k = 4000usize;
+            let m = (65535isize + delta) as usize - factor * k;
+            let field = k + m + 1;
+            let htyp: u8 = 0x21 | if be { 0x02 } else { 0 };
+            let len = 4 + 10 + 4 + 2 + field;
+            let mut v = vec![htyp, 0, (len >> 8) as u8, len as u8, 0x01, 1, b'A', 0, 0, 0, b'C', 0, 0, 0];
+            let ti: u32 = 0x0000_0200;
+            v.extend_from_slice(&if be { ti.to_be_bytes() } else { ti.to_le_bytes() });
+            let fl = field as u16;
+            v.extend_from_slice(&if be { fl.to_be_bytes() } else { fl.to_le_bytes() });
+            // invalid bytes spread through the text (not only at the end)
+            for i in 0..(k + m) {
+                v.push(if i % ((k + m) / k) == 0 && i / ((k + m) / k) < k { 0xFF } else { b'a' });
+            }
+            v.push(0);
+            writeln!(w, "NOPANIC 0 - {}", hex(&v))?;
         }
     }
     // 65535-byte names / strings inside a verbose payload, > 64 KiB inputs
@@ -1101,6 +1156,44 @@ fn c09(r: &mut Rng, thorough: bool, w: W) -> std::io::Result<()> {
         let mut bytes = enc(&m);
         if i % 25 == 0 {
             bytes = mutate(r, &bytes, storage);
+        }
+        if r.chance(1, 5) {
+            // id dialect on the wire: bytes behind the first NUL of an id field (the id is the text
+            // before the first NUL), an id field starting with NUL
+            let base = if storage { 16 } else { 0 };
+            if bytes.len() > base {
+                let h = bytes[base];
+                let mut offs = vec![];
+                if h & 4 != 0 {
+                    offs.push(base + 4);
+                }
+                let eo = base + 4 + [2u8, 3, 4].iter().filter(|b| h & (1 << **b) != 0).count() * 4;
+                if h & 1 != 0 {
+                    offs.push(eo + 2);
+                    offs.push(eo + 6);
+                }
+                for o in offs {
+                    if r.chance(1, 2) && bytes.len() >= o + 4 {
+                        match r.below(3) {
+                            0 => {
+                                // keep a prefix, NUL, then garbage
+                                let k = r.below(3) as usize;
+                                bytes[o + k] = 0;
+                                for j in k + 1..4 {
+                                    bytes[o + j] = *r.pick(&[b'X', b'B', 0, b'1']);
+                                }
+                            }
+                            1 => {
+                                bytes[o] = 0;
+                                bytes[o + 1] = b'P';
+                            }
+                            _ => {
+                                bytes[o + 3] = b'Z';
+                            }
+                        }
+                    }
+                }
+            }
         }
         bytes.extend(suffix(r));
         let ids: Vec<String> = alphabet.iter().map(|s| s.to_string()).collect();
